@@ -147,7 +147,9 @@ func checkMain(args []string) {
 			}
 			k := ks[rng.Intn(len(ks))]
 			r := ts[t].Rels[k]
-			switch rng.Intn(7) {
+			switch rng.Intn(8) {
+			case 7:
+				r.TT = strings.ToUpper(r.TT) // a name that differs from a type's by its case only: no such type
 			case 6:
 				r.FT, r.TT = "zz", "zz" // the same, with its inverse name kept
 			case 5:
